@@ -86,20 +86,16 @@ func (t escapeMapping) Transform(dst, src []byte, atEOF bool) (nDst, nSrc int, e
 			n := copy(dst[nDst:], src[nSrc:nSrc+idx])
 			nDst += n
 			nSrc += n
-			if n != idx-nSrc {
+			if n != idx || len(dst)-nDst < 3 {
 				return nDst, nSrc, transform.ErrShortDst
 			}
 			c := src[nSrc]
-			n = copy(dst[nDst:], []byte{
+			nDst += copy(dst[nDst:], []byte{
 				'\\',
 				"0123456789abcdef"[c>>4],
 				"0123456789abcdef"[c&15],
 			})
-			nDst += n
 			nSrc++
-			if n != 3 {
-				return nDst, nSrc, transform.ErrShortDst
-			}
 		}
 	}
 	return
@@ -158,7 +154,9 @@ func (unescapeMapping) Span(src []byte, atEOF bool) (n int, err error) {
 			return n, transform.ErrShortSrc
 		case len(src) - 2:
 			if atEOF || !ishex(src[n+1]) {
-				return len(src), nil
+				// Not an escape sequence, but the next byte may start one.
+				n++
+				continue
 			}
 			return n, transform.ErrShortSrc
 		}
@@ -199,13 +197,15 @@ func (t unescapeMapping) Transform(dst, src []byte, atEOF bool) (nDst, nSrc int,
 			return nDst, nSrc, transform.ErrShortSrc
 		case idx == len(src[nSrc:])-2:
 			if atEOF || !ishex(src[nSrc+idx+1]) {
-				n := copy(dst[nDst:], src[nSrc:])
+				// Not an escape sequence, but the next byte may start one: copy
+				// through the escape char only and look at the rest again.
+				n := copy(dst[nDst:], src[nSrc:nSrc+idx+1])
 				nDst += n
 				nSrc += n
-				if nSrc < len(src) {
+				if n != idx+1 {
 					return nDst, nSrc, transform.ErrShortDst
 				}
-				return
+				continue
 			}
 			n := copy(dst[nDst:], src[nSrc:nSrc+idx])
 			nDst += n
@@ -220,20 +220,12 @@ func (t unescapeMapping) Transform(dst, src []byte, atEOF bool) (nDst, nSrc int,
 			n := copy(dst[nDst:], src[nSrc:nSrc+idx])
 			nDst += n
 			nSrc += n
-			if n != idx {
+			if n != idx || nDst == len(dst) {
 				return nDst, nSrc, transform.ErrShortDst
 			}
-			if n == 0 {
-				n++
-			}
-			n = copy(dst[nDst:], []byte{
-				unhex(src[nSrc+n])<<4 | unhex(src[nSrc+n+1]),
-			})
-			nDst += n
+			dst[nDst] = unhex(src[nSrc+1])<<4 | unhex(src[nSrc+2])
+			nDst++
 			nSrc += 3
-			if n != 1 {
-				return nDst, nSrc, transform.ErrShortDst
-			}
 			continue
 		}
 		n := copy(dst[nDst:], src[nSrc:nSrc+idx+1])
